@@ -1,5 +1,6 @@
 import Operon.Lemmas.C20
 import Operon.Gen.GenomeTranslated
+import Operon.Gen.GenomeTables
 /-!
 # C20 — immutable configuration: values change only through authorised, logged mutations
 
@@ -767,6 +768,49 @@ theorem c20_translation_agrees_replicate_mutations (env : Env ν) (d : Nat) (mut
     obtain ⟨a, b⟩ := p
     simp only [Tr.replicate_mutations, mutateList, c20_translation_agrees_mutate]
     cases mutate env k c a b .replication <;> simp [ih]
+
+/-! ## The model is what the source DOES: agreement with decision tables evaluated on the real class
+
+`Operon/Gen/GenomeTables.lean` is regenerated on every run by `harness/vf/extract/eval_genome.py`, which RUNS the
+`Genome` class of the tree under test on every point of three finite domains (nothing is parsed, so rewrites that keep
+the behaviour keep the file).  A point whose evaluation fails, or whose routes disagree, is `none` and fails the theorem. -/
+
+/-- **`express` — the filter of the model is the filter of the source.**  For every gene type, expression level and
+    "named in the context", the model's per-gene test `expressed` gives what the real `express()` gave at that point
+    (level set as default / by `set_expression` / `silence_gene` / `activate_gene` / inherited by a child; context as
+    dict, empty, `None`; before and after a neighbour gene).  Together with `c20_express_exact` (the filter is applied
+    to every gene independently) this ties clause 5 to the code. -/
+theorem c20_express_agrees_with_evaluated_source (g : Genome ν) (ctx : List Nat) (x : Gene ν) (l : Level)
+    (h : findLevel g.expr x.name = some l) :
+    Gen.expressTable.lookup (x.gtype, l, ctx.contains x.name) = some (some (expressed g ctx x)) := by
+  unfold expressed
+  rw [h]
+  generalize x.gtype = t
+  generalize ctx.contains x.name = c
+  cases t <;> cases l <;> cases c <;> decide
+
+/-- `get_value` shows the stored value exactly at the levels at which the real `get_value()` showed it. -/
+theorem c20_get_value_agrees_with_evaluated_source (g : Genome ν) (n : Nat) (x : Gene ν) (l : Level)
+    (hx : findGene g.genes n = some x) (h : findLevel g.expr n = some l) :
+    Gen.getValueTable.lookup l = some (some (getValue g n).isSome) ∧
+      (getValue g n = some x.value ∨ getValue g n = none) := by
+  have hv : (getValue g n).isSome = !(l == .silenced) := by
+    unfold getValue; rw [hx]; simp only [h]; cases l <;> simp
+  refine ⟨by rw [hv]; cases l <;> decide, ?_⟩
+  unfold getValue; rw [hx]; simp only [h]; cases l <;> simp
+
+/-- **The gate — evaluated, not parsed.**  For each of `mutate`, `rollback_mutation`, re-`add_gene`, each
+    `allow_mutations` setting, each kind of callback (absent / approves / refuses / raises), and both ways a genome
+    can get these settings — from the constructor, or ASSIGNED to the public attributes of a live genome that was
+    built open and already mutated once — the model computes exactly what the real class did: return value (or the
+    propagated exception), the approved-flags of the log entries the call appended, the stored value afterwards. -/
+theorem c20_gate_agrees_with_evaluated_source (op : Nat) (hop : op < 3) (allow : Bool) (ans : Option Ans) (late : Bool) :
+    Gen.gateTable.lookup (op, allow, ans, late) = some (some (gateScenario op allow ans late)) := by
+  match op, hop with
+  | 0, _ => cases allow <;> cases late <;> rcases ans with _ | (_ | _ | _) <;> decide
+  | 1, _ => cases allow <;> cases late <;> rcases ans with _ | (_ | _ | _) <;> decide
+  | 2, _ => cases allow <;> cases late <;> rcases ans with _ | (_ | _ | _) <;> decide
+  | n + 3, h => exact absurd h (by omega)
 
 /-! ## Non-vacuity: concrete lineages and histories meeting the hypotheses -/
 
